@@ -250,8 +250,43 @@ def case(part, spec):
             return
 
 
+def late_variants(spec):
+    """the same graph built step by step: for every node with >=1 upstream connection and no own split, its connected
+    inputs are assigned through `node.inputs.<field> = ...` after the node was added (in both orders for two inputs)"""
+    out = []
+    for i, nd in enumerate(spec["nodes"]):
+        if "split" in nd or "wf" in nd or "combine" in nd:
+            continue
+        conn = [k for k in ("a", "b") if nd.get(k) and nd[k][0] == "node"]
+        if not conn:
+            continue
+        for order in ([conn] if len(conn) == 1 else [conn, conn[::-1]]):
+            v = json.loads(json.dumps(spec))
+            v["nodes"][i]["late"] = order
+            out.append(v)
+    return out
+
+
+def late_case(part, spec):
+    """differential: step-by-step construction must give exactly the outputs of the one-step construction"""
+    direct, err, _ = run_pydra(spec, part.scratch)
+    if err is not None:
+        return
+    for v in late_variants(spec):
+        got, err2, _ = run_pydra(v, part.scratch)
+        part.case(key=("late", WP.canon(v)), nontrivial=True)
+        if err2 is not None:
+            txt = "hang" if err2 == "hang" else f"{type(err2).__name__}: {str(err2)[:200]}"
+            part.violation("late-binding-fails", dict(spec=v, late=True), f"graph built step by step fails ({txt}) while the one-step construction succeeds")
+        elif WP.canon(got) != WP.canon(direct):
+            part.violation("late-binding-differs", dict(spec=v, late=True), f"graph built step by step returns {got!r}; one-step construction returns {direct!r}")
+
+
 def work(part, chunk):
     for spec in chunk:
+        if spec.get("_late_check"):
+            late_case(part, {k: v for k, v in spec.items() if k != "_late_check"})
+            continue
         case(part, spec)
     part.sample(spec, cap=3)
 
@@ -265,6 +300,19 @@ def run(ctx):
     if not ctx.thorough:
         progs += list(programs(3, restricted=True))
     progs += named_programs()
+    # step-by-step construction of fan-in shapes (two different split upstream nodes, diamonds, chains)
+    S = lambda name, inp: dict(name=name, split="a", split_vals={"a": W(inp)})
+    fanin = [
+        {"nodes": [S("n0", "x"), S("n1", "y"), dict(name="n2", a=O("n0"), b=O("n1"))], "outs": ["n2"]},
+        {"nodes": [S("n0", "x"), S("n1", "y"), dict(name="n2", a=O("n1"), b=O("n0"))], "outs": ["n2"]},
+        {"nodes": [S("n0", "x"), dict(name="n1", a=O("n0")), S("n2", "y"), dict(name="n3", a=O("n1"), b=O("n2"))], "outs": ["n3"]},
+        {"nodes": [S("n0", "x"), dict(name="n1", a=O("n0")), dict(name="n2", a=O("n1"), b=C(5))], "outs": ["n2"]},
+        {"nodes": [S("n0", "x"), dict(name="n1", a=C(1)), dict(name="n2", a=O("n1"), b=O("n0"))], "outs": ["n2"]},
+    ]
+    late = [dict(p, _late_check=True) for p in fanin]
+    late += [dict(p, _late_check=True) for p in programs(2) if late_variants(p)]
+    ctx.coverage["late_binding_programs"] = len(late)
+    progs += late
     ctx.coverage["programs"] = len(progs)
     ctx.coverage["named_shape_families"] = [p["label"] for p in named_programs()]
     ctx.rule = ("every program of the grammar (node forms x wiring to constants/workflow inputs/earlier nodes x own split "
@@ -279,5 +327,11 @@ def run(ctx):
 def replay(ctx, case_):
     from vt.runner import Part
     part = Part(scratch=ctx.scratch)
+    if case_.get("late"):
+        base = json.loads(json.dumps(case_["spec"]))
+        for nd in base["nodes"]:
+            nd.pop("late", None)
+        late_case(part, base)
+        return part.violations[0][2] if part.violations else None
     case(part, case_["spec"])
     return part.violations[0][2] if part.violations else None
